@@ -1318,9 +1318,49 @@ func (c *compiler) evalReturnStatement(node *ast.ReturnStatement) (interface{}, 
 		v := returnObject{}
 		v.Value = append(v.Value, res)
 		res = v
+		return res, nil
+	}
+
+	// an output tag inside a block is written when the enclosing tag is:
+	// what it prints is what the value held here, not what a later
+	// statement of the block made of it
+	switch node.ReturnValue.(type) {
+	case *ast.IfExpression, *ast.ForExpression:
+		// the results of the inner output tags, taken when they ran
+	default:
+		res = printed(res, nil, 0)
 	}
 
 	return res, nil
+}
+
+// printed returns v as an output tag will print it: the lists that are
+// printed element by element are copied, all the way down. A list that
+// contains itself is left as it is, for write to report.
+func printed(v interface{}, seen map[sliceRef]bool, depth int) interface{} {
+	switch t := v.(type) {
+	case []string:
+		return append([]string(nil), t...)
+	case []interface{}:
+		if len(t) == 0 || depth > maxWriteDepth {
+			return v
+		}
+		at := sliceRef{&t[0], len(t)}
+		if seen[at] {
+			return v
+		}
+		if seen == nil {
+			seen = map[sliceRef]bool{}
+		}
+		seen[at] = true
+		defer delete(seen, at)
+		out := make([]interface{}, len(t))
+		for i, e := range t {
+			out[i] = printed(e, seen, depth+1)
+		}
+		return out
+	}
+	return v
 }
 
 func (c *compiler) evalArrayLiteral(node *ast.ArrayLiteral) (interface{}, error) {
